@@ -200,6 +200,29 @@ func main() {
 			}
 		}
 	})
+	// element lengths: protocol v2 writes them as UNSIGNED shorts - elements of 32767, 32768 and 65535 bytes are
+	// expressible, 65536 bytes are not; from v3 the lengths are [int]s
+	for _, v := range []gen.V{gen.V2, gen.V3} {
+		for _, n := range []int{32767, 32768, 65535, 65536} {
+			long := bytes.Repeat([]byte{'a'}, n)
+			for _, lc := range []struct {
+				dt datatype.DataType
+				a  cql.AV
+			}{
+				{datatype.NewList(datatype.Blob), cql.AV{Kind: 'L', Elems: []cql.AV{cql.Bytes([]byte{1}), cql.Bytes(long)}}},
+				{datatype.NewSet(datatype.Varchar), cql.AV{Kind: 'L', Elems: []cql.AV{cql.Text(string(long))}}},
+				{datatype.NewMap(datatype.Varchar, datatype.Blob), cql.AV{Kind: 'M', Keys: []cql.AV{cql.Text(string(long))}, Elems: []cql.AV{cql.Bytes([]byte{2})}}},
+				{datatype.NewMap(datatype.Int, datatype.Varchar), cql.AV{Kind: 'M', Keys: []cql.AV{cql.BigInt(big.NewInt(7))}, Elems: []cql.AV{cql.Text(string(long))}}},
+			} {
+				if gt, ok := cql.GoType(lc.dt, cql.Plain); ok {
+					if src, ok := cql.Build(lc.dt, lc.a, gt); ok {
+						states++
+						check(lc.dt, v, "plain/long-element", src, gt, lc.a)
+					}
+				}
+			}
+		}
+	}
 	c.Sample(map[string]interface{}{"type": "list<int>", "version": "v2", "value": "L[I1,I0]", "spec_bytes": "0002 0004 00000001 0004 00000000"})
 	c.Set("states", states)
 	c.Set("transitions", evals)
